@@ -6,6 +6,7 @@ CONSTANTS
   MaxTexts = 1
   Flags <- FlagWords
   Verbs <- Levels
+  TextShapes <- MarkShapes
   Repaired = TRUE
   Depth = 2
   SeqLevels <- QuickLevels
